@@ -1,3 +1,159 @@
-(* C04 - property theorems. *)
+(* C04 - property theorems.  A connection is the list of the client's writes (segments);
+   [run_impl svc segs] are the events the modelled code sends and how Handle ends,
+   [expected svc stream] the reference reading of the byte stream.
+   C04_full is the property at full strength; it holds for the services with one persistent
+   reader and is refuted, with witnesses, for memcached storage commands, http pipelining,
+   http bodies and dns over UDP - outside those classes it is proved again. *)
 From HT Require Import Common.Bytes C04.Model C04.Check C04.Proofs.
 Open Scope nat_scope.
+
+(* C04_full svc := forall segs, run_impl svc segs = expected svc (concat segs)   (Proofs.v) *)
+
+(* ---- the reader library: requests on a persistent reader are functions of the pending stream ---- *)
+Theorem C04_read_until_depends_on_stream_only : forall d r,
+  let '(res, r') := r_until d r in s_until d (pending r) = (res, pending r').
+Proof. exact r_until_spec. Qed.
+
+Theorem C04_take_depends_on_stream_only : forall n r,
+  let '(x, r') := r_take n r in x = firstn n (pending r) /\ pending r' = skipn n (pending r).
+Proof. exact r_take_spec. Qed.
+
+(* a Read never loses or reorders bytes - but how many it returns follows the segments *)
+Theorem C04_read_returns_a_prefix : forall n r,
+  let '(b, r') := r_read n r in b ++ pending r' = pending r /\ length b <= n.
+Proof. exact r_read_inv. Qed.
+
+(* generic: a service that keeps ONE reader and only asks it for delimited lines and exact
+   byte counts reports the same events for every segmentation of the same stream *)
+Theorem C04_persistent_reader_segmentation_invariant : forall p s1 s2,
+  persistent p -> concat s1 = concat s2 -> seg_obs p s1 = seg_obs p s2.
+Proof. exact persistent_segmentation_invariant. Qed.
+
+Theorem C04_persistent_reader_reads_the_stream : forall p segs,
+  persistent p -> seg_obs p segs = str_obs p (concat segs) /\ seg_dropped p segs = [].
+Proof. exact persistent_reads_the_stream. Qed.
+
+(* general form for services with Reads and per-request readers: if the reference run never
+   needed a buffer-sensitive Read and no reader was dropped while it held bytes, the events
+   are the reference reading - whatever the segmentation *)
+Theorem C04_outside_read_and_reader_loss : forall p segs,
+  str_clean p (concat segs) = true -> seg_dropped p segs = [] ->
+  seg_obs p segs = str_obs p (concat segs).
+Proof. exact clean_lossless_obs. Qed.
+
+(* ---- services with one persistent reader: full property, all segmentations, pipelined or not ---- *)
+Theorem C04_ftp_full : C04_full SVC_FTP.
+Proof. exact ftp_run. Qed.
+
+Theorem C04_smtp_full : C04_full SVC_SMTP.
+Proof. exact smtp_run. Qed.
+
+Theorem C04_redis_full : C04_full SVC_REDIS.
+Proof. exact redis_run. Qed.
+
+Theorem C04_eos_full : C04_full SVC_EOS.
+Proof. exact eos_run. Qed.
+
+Theorem C04_ethereum_full : C04_full SVC_ETHEREUM.
+Proof. exact ethereum_run. Qed.
+
+(* ftp spelled out: exactly one event per complete line, in the order sent, up to QUIT;
+   the lines partition the stream; the fuel of run_impl/expected is never exhausted *)
+Theorem C04_ftp_one_event_per_line_in_order : forall fuel s,
+  fst (str_obs (ftp_prog fuel) s) = ftp_events (lines_f fuel s).
+Proof. exact ftp_events_spec. Qed.
+
+Theorem C04_ftp_lines_partition_the_stream : forall fuel s, length s < fuel ->
+  exists tail, s = concat (lines_f fuel s) ++ tail /\ split_delim LF tail = None.
+Proof. exact lines_f_partition. Qed.
+
+Theorem C04_ftp_fuel_suffices : forall fuel s, length s < fuel -> snd (str_obs (ftp_prog fuel) s) = 0%N.
+Proof. exact ftp_fuel_enough. Qed.
+
+(* the reference readings used for memcached and the http family are themselves
+   segmentation independent (they are persistent-reader programs) *)
+Theorem C04_reference_memcached_persistent : forall udp fuel, persistent (memcached_prog true udp fuel).
+Proof. exact memcached_ideal_persistent. Qed.
+
+Theorem C04_reference_http_persistent : forall cfg fuel, persistent (http_prog cfg true fuel).
+Proof. exact http_ideal_persistent. Qed.
+
+(* ---- datagram services: each datagram is decoded on its own, whatever its length ---- *)
+Theorem C04_tftp_each_datagram : forall d, run_impl SVC_TFTP [d] = expected SVC_TFTP d.
+Proof. exact tftp_datagram. Qed.
+
+Theorem C04_counterstrike_each_datagram : forall d, run_impl SVC_CS [d] = expected SVC_CS d.
+Proof. exact cs_datagram. Qed.
+
+(* ---- defects of the code, with witnesses ---- *)
+
+(* memcached storage command: two segmentations of one stream, different events *)
+Theorem C04_memcached_storage_refuted :
+  exists s1 s2, concat s1 = concat s2 /\ run_impl SVC_MEMCACHED s1 <> run_impl SVC_MEMCACHED s2 /\
+                run_impl SVC_MEMCACHED s1 <> expected SVC_MEMCACHED (concat s1) /\
+                run_impl SVC_MEMCACHED s2 <> expected SVC_MEMCACHED (concat s2).
+Proof. exact memcached_storage_refuted. Qed.
+
+(* http: two requests in one write give one event, in two writes two events *)
+Theorem C04_http_pipelined_refuted :
+  exists s1 s2, concat s1 = concat s2 /\
+    length (fst (run_impl SVC_HTTP s1)) = 1 /\ length (fst (run_impl SVC_HTTP s2)) = 2 /\
+    length (fst (expected SVC_HTTP (concat s1))) = 2 /\ seg_dropped (impl_prog SVC_HTTP (fuel_for (concat s1))) s1 = W_GET_B.
+Proof. exact http_pipelined_refuted. Qed.
+
+(* http: the recorded payload is the first Read of the body *)
+Theorem C04_http_body_refuted :
+  exists s1 s2, concat s1 = concat s2 /\ run_impl SVC_HTTP s1 <> run_impl SVC_HTTP s2 /\
+                run_impl SVC_HTTP s1 = expected SVC_HTTP (concat s1).
+Proof. exact http_body_refuted. Qed.
+
+(* dns: behind the server's timeout wrapper nothing is reported, for any datagram;
+   on the bare datagram connection the query would be *)
+Theorem C04_dns_behind_wrapper_silent : forall segs, run_impl SVC_DNS segs = ([], 0%N).
+Proof. exact dns_wrapped_silent. Qed.
+
+Theorem C04_dns_refuted :
+  run_impl SVC_DNS [W_DNS] <> expected SVC_DNS W_DNS /\ run_impl SVC_DNS_BARE [W_DNS] = expected SVC_DNS W_DNS.
+Proof. exact dns_refuted. Qed.
+
+(* ---- non-vacuity ---- *)
+Example C04_ftp_nonvacuous :
+  run_impl SVC_FTP [[85;83;69;82;32;97;13;10;83;89]%N; [83;84;13;10;81;85;73;84;13;10;78;79;79;80;13;10]%N] =
+  ([mkEv EV_FTP [[85;83;69;82;32;97]%N]; mkEv EV_FTP [[83;89;83;84]%N]; mkEv EV_FTP [[81;85;73;84]%N]], 0%N).
+Proof. vm_compute. reflexivity. Qed.
+
+Example C04_smtp_nonvacuous :
+  fst (run_impl SVC_SMTP [firstn 30 [69;72;76;79;32;99;13;10;77;65;73;76;32;70;82;79;77;58;60;97;64;98;62;13;10;68;65;84;65;13;10;83;117;98;106;101;99;116;58;32;115;13;10;13;10;46;46;120;13;10;46;13;10;81;85;73;84;13;10]%N; skipn 30 [69;72;76;79;32;99;13;10;77;65;73;76;32;70;82;79;77;58;60;97;64;98;62;13;10;68;65;84;65;13;10;83;117;98;106;101;99;116;58;32;115;13;10;13;10;46;46;120;13;10;46;13;10;81;85;73;84;13;10]%N]) =
+  [mkEv EV_SMTP_LINE [[69;72;76;79;32;99]%N]; mkEv EV_SMTP_LINE [[77;65;73;76;32;70;82;79;77;58;60;97;64;98;62]%N]; mkEv EV_SMTP_LINE [[68;65;84;65]%N];
+   mkEv EV_SMTP_MAIL [[46;120]%N ++ [10]%N]; mkEv EV_SMTP_LINE [[81;85;73;84]%N]].
+Proof. vm_compute. reflexivity. Qed.
+
+Example C04_outside_loss_nonvacuous :
+  let p := impl_prog SVC_HTTP (fuel_for (W_GET_A ++ W_GET_B)) in
+  str_clean p (W_GET_A ++ W_GET_B) = true /\ seg_dropped p [W_GET_A; W_GET_B] = [] /\
+  length (fst (seg_obs p [W_GET_A; W_GET_B])) = 2.
+Proof. vm_compute. repeat split; reflexivity. Qed.
+
+Print Assumptions C04_read_until_depends_on_stream_only.
+Print Assumptions C04_take_depends_on_stream_only.
+Print Assumptions C04_read_returns_a_prefix.
+Print Assumptions C04_persistent_reader_segmentation_invariant.
+Print Assumptions C04_persistent_reader_reads_the_stream.
+Print Assumptions C04_outside_read_and_reader_loss.
+Print Assumptions C04_ftp_full.
+Print Assumptions C04_smtp_full.
+Print Assumptions C04_redis_full.
+Print Assumptions C04_eos_full.
+Print Assumptions C04_ethereum_full.
+Print Assumptions C04_ftp_one_event_per_line_in_order.
+Print Assumptions C04_ftp_lines_partition_the_stream.
+Print Assumptions C04_ftp_fuel_suffices.
+Print Assumptions C04_reference_memcached_persistent.
+Print Assumptions C04_reference_http_persistent.
+Print Assumptions C04_tftp_each_datagram.
+Print Assumptions C04_counterstrike_each_datagram.
+Print Assumptions C04_memcached_storage_refuted.
+Print Assumptions C04_http_pipelined_refuted.
+Print Assumptions C04_http_body_refuted.
+Print Assumptions C04_dns_behind_wrapper_silent.
+Print Assumptions C04_dns_refuted.
